@@ -22,8 +22,8 @@ type Paint struct {
 	Pal    []uint64 `json:"pal,omitempty"`
 }
 
-func Fill(l uint64) Paint            { return Paint{T: "fill", L: l} }
-func Box(b [6]int, l uint64) Paint   { return Paint{T: "box", Box: b, L: l} }
+func Fill(l uint64) Paint          { return Paint{T: "fill", L: l} }
+func Box(b [6]int, l uint64) Paint { return Paint{T: "box", Box: b, L: l} }
 func Cyc(b [6]int, base, stride, m uint64) Paint {
 	return Paint{T: "cyc", Box: b, Base: base, Stride: stride, M: m}
 }
@@ -319,4 +319,14 @@ func modelEncode(a []uint64, g [3]int, tbl []uint64, sparse bool) []byte {
 	out = append(out, idx...)
 	out = append(out, vals...)
 	return out
+}
+
+// NonCubic is the sweep of non-cubic block sizes (in sub-blocks per axis) shared by the drivers that
+// reach Block.Downres: X<Y, X>Z and all three different; a block has at least two sub-blocks per axis.
+func NonCubic(thorough bool) [][3]int {
+	s := [][3]int{{2, 3, 2}, {3, 2, 2}, {2, 2, 3}, {2, 3, 4}, {4, 3, 2}}
+	if thorough {
+		s = append(s, [][3]int{{2, 4, 2}, {4, 2, 2}, {2, 2, 4}, {2, 4, 6}, {6, 4, 2}}...)
+	}
+	return s
 }
